@@ -214,6 +214,8 @@ def execute(case):
         if klass == 'excepted' and fault['hook'].startswith(('cb:', 'step:')) and fired[5]:
             klass = 'late-callback'  # the callback fired after termination: nothing may change (C01)
 
+        if views['terminated'] and views['future_unretrieved']:
+            v('future-exception-unretrieved', f"state {views['state']}: the exception of the process future was never retrieved: it reaches the loop's exception handler when the future is collected")
         if escapes:
             v('escaped-to-loop', f"{escapes[0]['message'][:60]} {escapes[0]['exc_type']}: {escapes[0]['exc_str']}")
         if views.get('task_done') and (views.get('task_cancelled') or views.get('task_exception') is not None):
